@@ -1,6 +1,6 @@
 (* C13 - judges evaluated by the correspondence streams: bit 0 = model differs from the implementation's output,
    bit 1 = the implementation's output violates the specification (under the hypotheses of the theorems). *)
-From Coq Require Import QArith Qminmax List Bool.
+From Coq Require Import QArith Qminmax Qround ZArith List Bool.
 Require Import WV.model.C13Replaced WV.model.C13Spec.
 Import ListNotations.
 Open Scope Q_scope.
@@ -158,3 +158,98 @@ Definition layout_judge
   let m := rb_layout (fit_of f) rgt btm px py bw bh i cx cy in
   (bit 1 (match m, out with Some a, Some b => q4_eqb a b | None, None => true | _, _ => false end) +
    bit 2 (layout_spec_b (fit_of f) rgt btm px py bw bh i cx cy out))%nat.
+
+(* ================================================================ render monitor (floats: tolerances) *)
+Require Import WV.model.C13Background.
+Definition tol6 : Q := 1 # 1000000.
+Definition tol4 : Q := 1 # 10000.
+Definition close4 (tol : Q) (a b : Q * Q * Q * Q) : bool :=
+  let '(a1, a2, a3, a4) := a in let '(b1, b2, b3, b4) := b in
+  close tol a1 b1 && close tol a2 b2 && close tol a3 b3 && close tol a4 b4.
+
+(* ((bw, bh), intr, (cbw, hsum, minw, minh), (maxw, maxh), observed (w, h), (fit, rgt, btm, px, py), (cx, cy),
+    raster?, observed painted rectangle (x, y, w, h) from the `cm ... Do` in the PDF) *)
+Definition mon_case : Type :=
+  (oq * oq) * (oq * oq * oq) * (Q * Q * Q * Q) * (oq * oq) * (Q * Q) * (nat * bool * bool * lenpct * lenpct) *
+  (Q * Q) * bool * option (Q * Q * Q * Q).
+
+Definition monitor_judge (c : mon_case) : nat :=
+  let '((bw, bh), i3, (cbw, hsum, minw, minh), (maxw, maxh), obs, (f, rgt, btm, px, py), (cx, cy), raster, draw) := c in
+  let i := mk_intr i3 in
+  let fill := fill_width cbw hsum minw maxw in
+  let b1 := match inline_wh bw bh i cbw hsum minw minh maxw maxh with
+            | Some m => q2_close tol6 m obs
+            | None => false
+            end in
+  let b2 := impl (used_size_hyp_b bw bh i fill minw minh maxw maxh)
+                 (q2_close tol6 (css_used_size_fn bw bh i fill minw minh maxw maxh) obs) in
+  let b4 :=
+    negb raster ||
+    match rb_layout (fit_of f) rgt btm px py (fst obs) (snd obs) i cx cy, draw with
+    | Some (dw, dh, x, y), Some d => close4 tol4 (x, y, dw, dh) d
+    | Some (dw, dh, x, y), None => Qle_bool dw 0 || Qle_bool dh 0 || Qeq_bool (fst obs) 0 || Qeq_bool (snd obs) 0
+    | None, _ => false
+    end in
+  (bit 1 b1 + bit 2 b2 + bit 4 b4)%nat.
+
+
+(* contain / cover / round judged on the observed layer (w, h, x, y) with a tolerance *)
+Definition cle (tol a b : Q) : bool := Qle_bool a (b + tol * Qmax 1 (Qabs' b)).
+Definition bg_spec_approx (i : intr) (size : bgsize) (pw ph : Q) (rx ry : rep) (l : Q * Q * Q * Q) : bool :=
+  let '(w, h, x, y) := l in
+  impl (negb (is_round rx) && negb (is_round ry))
+    match size, ir i with
+    | BContain, Some r => impl (Qltb 0 r) (cle tol6 w pw && cle tol6 h ph && (close tol6 w pw || close tol6 h ph) && close tol6 w (h * r))
+    | BCover, Some r => impl (Qltb 0 r) (cle tol6 pw w && cle tol6 ph h && (close tol6 w pw || close tol6 h ph) && close tol6 w (h * r))
+    | _, _ => true
+    end &&
+  impl (is_round rx && Qltb 0 pw && Qltb 0 w)
+    (close tol6 x 0 && let n := Qround.Qfloor (pw / w + (1 # 2)) in close tol6 (w * inject_Z n) pw && (1 <=? n)%Z) &&
+  impl (is_round ry && Qltb 0 ph && Qltb 0 h)
+    (close tol6 y 0 && let n := Qround.Qfloor (ph / h + (1 # 2)) in close tol6 (h * inject_Z n) ph && (1 <=? n)%Z).
+
+(* (intr, size, (pw, ph), (rgt, btm), (px, py), (rx, ry), painting (w, h), positioning origin (x, y),
+    observed: None = layer without image | Some (layer (w, h, x, y), first tile rectangle in page px, pattern steps)) *)
+Definition bgmon_case : Type :=
+  (oq * oq * oq) * bgsize * (Q * Q) * (bool * bool) * (lenpct * lenpct) * (nat * nat) * (Q * Q) * (Q * Q) *
+  option ((Q * Q * Q * Q) * option (Q * Q * Q * Q) * option (Q * Q)).
+
+(* `space`: floor(area / image) is computed in floating point by the implementation; when the quotient is (nearly) an
+   integer either neighbouring count is accepted *)
+Definition space_steps (area img : Q) : list Q :=
+  match qdiv area img with
+  | None => []
+  | Some q => map (fun n => if (2 <=? n)%Z then (area - img) / inject_Z (n - 1) else area)
+                  [Qround.Qfloor q; Qround.Qfloor (q + tol6); Qround.Qfloor (q - tol6)]
+  end.
+Definition step_ok (r : rep) (area paint img pos obs : Q) : bool :=
+  match r with
+  | Space => existsb (fun s => close tol4 s obs) (space_steps area img)
+  | _ => match draw_axis r area paint img pos with Some (s, _) => close tol4 s obs | None => false end
+  end.
+
+Definition bgmon_judge (c : bgmon_case) : nat :=
+  let '(i3, size, (pw, ph), (rgt, btm), (px, py), (rx, ry), (paw, pah), (ox, oy), out) := c in
+  let i := mk_intr i3 in
+  let rx := rep_of rx in let ry := rep_of ry in
+  match bg_layout i size pw ph rgt btm px py rx ry, out with
+  | BUnused, None => 0%nat
+  | BLayer w h x y, Some (l, tile, steps) =>
+      let b1 := close4 tol6 (w, h, x, y) l in
+      let pattern := negb (match rx, ry with NoRepeat, NoRepeat => true | _, _ => false end) in
+      let b4 :=
+        if Qeq_bool w 0 || Qeq_bool h 0 then match tile with None => true | Some _ => false end
+        else
+          match draw_axis rx pw paw w x, draw_axis ry ph pah h y, tile with
+          | Some (sx, offx), Some (sy, offy), Some t =>
+              (if pattern then close4 tol4 (ox + offx, oy + offy, w, h) t
+               else close4 tol4 (ox + x, oy + y, w, h) t) &&
+              match steps with
+              | Some (a, b) => pattern && step_ok rx pw paw w x a && step_ok ry ph pah h y b
+              | None => negb pattern
+              end
+          | _, _, _ => false
+          end in
+      (bit 1 b1 + bit 4 b4 + bit 2 (bg_spec_approx i size pw ph rx ry l))%nat
+  | _, _ => 1%nat
+  end.
